@@ -93,10 +93,7 @@ func genPacketSpec(t *core.Tape, maxPayload int) *pktSpec {
 			s.exts = append(s.exts, extEl{id, t.Bytes(l)})
 		}
 	case profLegacy:
-		s.legacyProfile = uint16(t.Draw(1 << 16))
-		if s.legacyProfile == 0xBEDE || s.legacyProfile == 0x1000 {
-			s.legacyProfile ^= 1
-		}
+		s.legacyProfile = drawLegacyProfile(t)
 		s.exts = []extEl{{0, t.Bytes(4 * t.Intn(5))}}
 	}
 	switch t.Weighted(6, 2, 1, 1) {
@@ -116,6 +113,24 @@ func genPacketSpec(t *core.Tape, maxPayload int) *pktSpec {
 		}
 	}
 	return s
+}
+
+// drawLegacyProfile draws an RFC 3550 profile id that is neither 0xBEDE nor 0x1000, biased to
+// the neighbours of those two values (0x1001-0x100F are the RFC 8285 "appbits" look-alikes).
+func drawLegacyProfile(t *core.Tape) uint16 {
+	var p uint16
+	switch t.Weighted(3, 3, 2) {
+	case 0:
+		p = uint16(t.Draw(1 << 16))
+	case 1:
+		p = uint16(0x1001 + t.Intn(15))
+	case 2:
+		p = []uint16{0x0FFF, 0x1010, 0xBEDF, 0xBEDD, 0, 0xFFFF, 0x0123}[t.Intn(7)]
+	}
+	if p == 0xBEDE || p == 0x1000 {
+		p ^= 1
+	}
+	return p
 }
 
 func (s *pktSpec) String() string {
